@@ -3,7 +3,7 @@
 # compares the outcome with the pinned baseline (/root/.vp/BASELINE.json):
 # every stable-pass test must still pass. Exit 0 iff so.
 set -u
-cd /repo
+cd "${BASELINE_REPO:-/repo}"
 unset RUSTFLAGS
 export CARGO_NET_OFFLINE=true
 LOG=$(mktemp /tmp/baseline.XXXXXX.log)
